@@ -73,7 +73,7 @@ ODD_THOROUGH = tuple(w for w in range(1, 64) if w not in NATIVE)
 BN_QUICK = (65, 96, 127, 128, 129, 192, 255, 256)
 BN_THOROUGH = (65, 66, 80, 95, 96, 97, 127, 128, 129, 160, 191, 192, 193, 224, 255, 256)
 RCL = (9, 17, 33)
-NESTED_QUICK = (8, 13, 32, 64, 128)
+NESTED_QUICK = (8, 32, 64, 128)
 NESTED_THOROUGH = (3, 8, 13, 16, 32, 33, 64, 65, 128, 256)
 PROBE_ODD = (13,)
 NSHARDS_QUICK = 16
@@ -136,7 +136,7 @@ def kconsts(w, quick):
     """constants used as the second operand inside an expression"""
     m = mask(w)
     if quick:
-        return sorted({1, w & m, 1 << (w - 1), m})
+        return sorted({w & m, 1 << (w - 1), m})
     s = {0, 1, (w - 1) & m, w & m, (w + 1) & m, 1 << (w - 1), m}
     if w > 7:
         s.add(64 & m)
@@ -330,7 +330,7 @@ def depth1(w, quick):
         out.append(F(op, wc, fam, w, OP(op, a, b)))
         for k in kconsts(w, quick):
             out.append(F(op, wc, fam, w, OP(op, a, K(k, w))))
-        for k in (sorted({1 << (w - 1), mask(w)}) if quick else small(w)):
+        for k in ([1 << (w - 1)] if quick else small(w)):
             out.append(F(op, wc, fam, w, OP(op, K(k, w), b)))
     if w == 16:
         for op in ("bcdadd", "bcdadd_cf"):
@@ -1157,7 +1157,10 @@ def run(ctx):
     funcs = lattice(quick)
     n = NSHARDS_QUICK if quick else NSHARDS_THOROUGH
     opt = GEN_OPT["quick" if quick else "thorough"]
-    shards = [(funcs[i::n], shadow, rt, "s%d" % i, opt) for i in range(n)]
+    # the information-only probes (expected not to compile) get a shard of their own: no other file is compiled twice for them
+    plain = [f for f in funcs if not f["probe"]]
+    shards = [(plain[i::n], shadow, rt, "s%d" % i, opt) for i in range(n)]
+    shards.append(([f for f in funcs if f["probe"]], shadow, rt, "probe", opt))
     res = ctx.pmap(_worker, shards)
 
     tot = {"functions": 0, "evaluations": 0, "nontrivial": 0, "undefined_skipped": 0, "compile_rejected": 0, "not_run_after_faults_or_timeouts": 0, "not_run_after_crash": 0, "isolated_reruns": 0, "suspected_timeouts_not_confirmed": 0, "signals": 0,
